@@ -72,7 +72,9 @@ func vxH09Rpc(k int, ops int, kindsel int, ntags int, dotu bool, seg bool, gopee
 	// distinct callers have distinct payloads (their fids differ anyway; make the data differ too)
 	for i := 0; i <= k; i++ {
 		for j := 0; j < i; j++ {
-			vxAssume(uint16(callers[i].off) != uint16(callers[j].off))
+			if callers[i].op <= vxOpWrite && callers[j].op <= vxOpWrite {
+				vxAssume(uint16(callers[i].off) != uint16(callers[j].off))
+			}
 		}
 	}
 
@@ -125,6 +127,7 @@ func vxH09Rpc(k int, ops int, kindsel int, ntags int, dotu bool, seg bool, gopee
 		return
 	}
 
+	peer.sync()
 	vxAssert(!peer.badWire, "client-writes-whole-frames")
 	vxAssert(!peer.dupTag, "outstanding-tags-pairwise-distinct")
 	vxAssert(len(peer.reqs) == k, "one-request-per-call")
@@ -145,6 +148,7 @@ func vxH09Rpc(k int, ops int, kindsel int, ntags int, dotu bool, seg bool, gopee
 	last := callers[k]
 	last.call(clnt)
 	vxAssert(last.gotMatching(dotu), "follow-up-call-gets-its-own-reply")
+	peer.sync()
 	vxAssert(!peer.dupTag, "outstanding-tags-pairwise-distinct")
 	vxReach("done")
 }
@@ -279,6 +283,7 @@ func vxH09Pool(ncalls int, dotu bool) {
 	}
 	vxQuiesce()
 	check("after-all-calls")
+	peer.sync()
 	vxAssert(!usedOutstanding, "a-new-call-never-uses-an-outstanding-tag")
 	vxAssert(!peer.dupTag, "outstanding-tags-pairwise-distinct")
 	vxAssert(len(peer.reqs) == ncalls+1, "one-request-per-call")
@@ -374,6 +379,7 @@ func vxH09Tag(n int, chancap int, other bool, dotu bool) {
 			vxAssert(vxAll(r.Rc.Type == Rerror, r.Rc.Error == "no"), "completion-carries-the-reply-to-its-own-request")
 		}
 	}
+	peer.sync()
 	// wire: n requests with the Tag's tag, distinct from the ordinary call's tag
 	for _, q := range peer.reqs {
 		if q.fidOf() == 7 {
